@@ -15,7 +15,7 @@ fn any_chunker() -> Option<Chunker> {
 }
 
 /// stub for config.rs's private error-text builder (formats a ByteSize as a float: flt2dec bignum loops)
-fn stub_size_too_large(_err: std::num::TryFromIntError, _size: ByteSize) -> Box<RusticError> {
+pub(crate) fn stub_size_too_large(_err: std::num::TryFromIntError, _size: ByteSize) -> Box<RusticError> {
     RusticError::new(ErrorKind::Internal, "")
 }
 
